@@ -12,7 +12,7 @@ for d in ${SEEDROOT:-/tmp/wt}/$id/out/m*/; do
   mkdir -p seeded/$name
   cp "$d/patch.diff" "$d/demo_test.go" seeded/$name/
   [ -f "$d/NOTES.md" ] && cp "$d/NOTES.md" seeded/$name/
-  out=$(tools/try_mutant.sh seeded/$name/patch.diff $id 2>&1)
+  out=$(VERIF_SKIP_SEED_REGRESSIONS=1 tools/try_mutant.sh seeded/$name/patch.diff $id 2>&1)
   code=$(echo "$out" | sed -n 's/^== .* exit \([0-9]*\)$/\1/p' | head -1)
   first=$(echo "$out" | grep -A1 VIOLATION | head -2 | tail -1 | cut -c1-300)
   echo "   check $id exit=$code  $first"
